@@ -20,7 +20,7 @@ TECHNIQUE = "Coq proof (per-layer algebraic identities, lra/nra) + bit-exact ker
 
 ORACLE_KEYS = ("uptake-credit", "uptake-credited-in-later-substep", "mineral-bookkeeping", "organic-pool-negative",
                "dissolved-exceeds-applied", "c1-negative", "state-not-finite", "fixation-credit",
-               "tillage-mixing-not-conservative", "tillage-run-error")
+               "tillage-mixing-not-conservative", "tillage-run-error", "crop-n-credit", "mineral-n-below-profile")
 
 
 def correspond(ctx):
